@@ -359,11 +359,12 @@ def population(rng, date, n_hh=8, params=None, archetypes=None, corner=None,
     df["vertra_arbeitsl_2006"] = adult & (R.random(n) < 0.1)
     df["höchster_bruttolohn_letzte_15_jahre_vor_rente_y"] = np.where(
         adult, np.maximum(df["bruttolohn_m"] * 12, np.round(R.uniform(0, 90000, n), 2)), 0.0)
-    df["voll_erwerbsgemind"] = adult & ~rentner & (alter < 63) & (R.random(n) < 0.06)
-    df["teilw_erwerbsgemind"] = adult & ~rentner & (alter < 63) & ~df["voll_erwerbsgemind"].to_numpy() & (R.random(n) < 0.05)
-    # a disability pension is drawn from a year in the past (age at entry <= current age)
+    df["voll_erwerbsgemind"] = adult & ~rentner & (alter >= 22) & (alter < 63) & (R.random(n) < 0.06)
+    df["teilw_erwerbsgemind"] = adult & ~rentner & (alter >= 22) & (alter < 63) & ~df["voll_erwerbsgemind"].to_numpy() & (R.random(n) < 0.05)
+    # a disability pension is drawn from a year in the past (age at entry <= current age, and not before 21:
+    # five years of contributions are required)
     em = df["voll_erwerbsgemind"].to_numpy() | df["teilw_erwerbsgemind"].to_numpy()
-    entry_age = np.minimum(alter, np.maximum(20, alter - R.integers(0, 15, n)))
+    entry_age = np.minimum(alter, np.maximum(21, alter - R.integers(0, 15, n)))
     df["jahr_renteneintr"] = np.where(em, df["geburtsjahr"] + entry_age, df["jahr_renteneintr"])
     df["behinderungsgrad"] = R.choice([0, 0, 0, 0, 20, 30, 50, 80, 100], n)
     df["schwerbeh_g"] = (df["behinderungsgrad"] >= 50) & (R.random(n) < 0.7)
